@@ -446,7 +446,7 @@ class Interp:
             mgrs = []
             for item in st.items:
                 m_ = self.expr(item.context_expr, env)
-                if not isinstance(m_, PyNative) or not hasattr(m_, "__enter__"):
+                if not isinstance(m_, (PyNative, _Suppress)) or not hasattr(m_, "__enter__"):
                     raise AnalysisError(f"absint: context manager `{ast.unparse(item.context_expr)[:40]}` not modelled")
                 v = m_.__enter__()
                 mgrs.append(m_)
@@ -454,10 +454,16 @@ class Interp:
                     self.store(item.optional_vars, v, env)
             try:
                 r = self.block(st.body, env)
-            except Raised:
+            except Raised as ex_:
+                swallowed = False
                 for m_ in reversed(mgrs):
-                    m_.__exit__(Raised, None, None)
-                raise
+                    if swallowed:
+                        m_.__exit__(None, None, None)
+                    elif m_.__exit__(Raised, ex_, None):
+                        swallowed = True  # the context manager suppresses the exception (contextlib.suppress)
+                if not swallowed:
+                    raise
+                return None
             for m_ in reversed(mgrs):
                 m_.__exit__(None, None, None)
             return r
@@ -582,7 +588,8 @@ class Interp:
             try:
                 return {
                     ast.Add: lambda: a + b, ast.Sub: lambda: a - b, ast.Mult: lambda: a * b,
-                    ast.Div: lambda: a / b, ast.FloorDiv: lambda: a // b, ast.Mod: lambda: a % b,
+                    ast.Div: lambda: a / b, ast.FloorDiv: lambda: a // b, ast.Mod: lambda: a % b, ast.Pow: lambda: a ** b,
+                    ast.LShift: lambda: a << b, ast.RShift: lambda: a >> b, ast.BitAnd: lambda: a & b, ast.BitOr: lambda: a | b, ast.BitXor: lambda: a ^ b,
                 }[type(op)]()
             except ZeroDivisionError:
                 raise Raised("ZeroDivisionError")
@@ -753,6 +760,10 @@ class Interp:
                 return {"list": list, "tuple": tuple, "dict": dict, "set": set, "int": int, "float": float, "str": str, "bool": bool}[e.id]
             if e.id in ("True", "False", "None"):
                 return {"True": True, "False": False, "None": None}[e.id]
+            if e.id in _EXC_NAMES:
+                return _ExcCls(e.id)
+            if e.id == "suppress":
+                return _PyCall(lambda *kinds: _Suppress(kinds))
             raise AnalysisError(f"absint: unknown name {e.id}")
         if isinstance(e, ast.Attribute):
             d = dotted(e)
@@ -944,7 +955,20 @@ class Interp:
                     out += str(v.value)
                 else:
                     x = self.expr(v.value, env)
-                    out += self.to_str(x)
+                    spec = self.expr(v.format_spec, env) if v.format_spec is not None else ""
+                    if v.conversion == ord("r"):
+                        x = repr(x) if not isinstance(x, Node) else self.to_str(x)
+                    elif v.conversion == ord("s"):
+                        x = self.to_str(x)
+                    if spec:
+                        if isinstance(x, (Node, Rat)):
+                            raise AnalysisError(f"absint: format spec `{spec}` applied to a symbolic value")
+                        try:
+                            out += format(x, spec)
+                        except (TypeError, ValueError) as ex:
+                            raise Raised(f"{type(ex).__name__}: {ex}")
+                    else:
+                        out += x if isinstance(x, str) else self.to_str(x)
             return out
         if isinstance(e, ast.Dict):
             return {self.expr(k, env): self.expr(v, env) for k, v in zip(e.keys, e.values)}
@@ -1119,11 +1143,19 @@ class Interp:
             x, name = vals[0], vals[1]
             if isinstance(x, Node) and (name in x.f):
                 return x.f[name]
+            if isinstance(x, PyNative):
+                try:
+                    v_ = getattr(x, name)
+                    return _PyCall(v_) if callable(v_) and not isinstance(v_, PyNative) else v_
+                except AttributeError:
+                    pass
             if len(vals) == 3:
                 return vals[2]
             raise Raised("AttributeError")
         if fn == "hasattr":
             x, name = vals
+            if isinstance(x, PyNative):
+                return hasattr(x, name)
             return isinstance(x, Node) and (name in x.f or name == "dtype")
         if fn == "type":
             return _Cls(vals[0].cls) if isinstance(vals[0], Node) else type(vals[0])
@@ -1233,6 +1265,46 @@ class Interp:
             if c in table:
                 return table[c]
         return f
+
+
+_EXC_NAMES = {"Exception", "BaseException", "RuntimeError", "ValueError", "TypeError", "KeyError", "IndexError", "LookupError", "OSError", "IOError", "FileNotFoundError",
+              "FileExistsError", "AttributeError", "NotImplementedError", "ZeroDivisionError", "ArithmeticError", "AssertionError", "TimeoutError", "ImportError",
+              "ModuleNotFoundError", "StopIteration", "PermissionError"}
+_EXC_PARENTS = {"FileNotFoundError": ("OSError", "IOError"), "FileExistsError": ("OSError", "IOError"), "PermissionError": ("OSError", "IOError"), "TimeoutError": ("OSError",),
+                "KeyError": ("LookupError",), "IndexError": ("LookupError",), "ZeroDivisionError": ("ArithmeticError",), "ModuleNotFoundError": ("ImportError",),
+                "NotImplementedError": ("RuntimeError",)}
+
+
+class PyNativeBase:
+    pass
+
+
+class _ExcCls:
+    """A builtin exception class used as a value (argument of contextlib.suppress, second operand of isinstance)."""
+
+    def __init__(self, name):
+        self.name = name
+
+    def __repr__(self):
+        return self.name
+
+
+def _exc_kind(what: str) -> str:
+    return str(what).split(":")[0].replace("raise ", "").split("(")[0].strip()
+
+
+class _Suppress:
+    def __init__(self, kinds):
+        self.kinds = [k.name if isinstance(k, _ExcCls) else str(k) for k in kinds]
+
+    def __enter__(self):
+        return None
+
+    def __exit__(self, et, ex, tb):
+        if et is None or ex is None:
+            return False
+        kind = _exc_kind(getattr(ex, "what", ""))
+        return any(k in ("Exception", "BaseException") or k == kind or k in _EXC_PARENTS.get(kind, ()) for k in self.kinds)
 
 
 class _Ret:
